@@ -164,6 +164,9 @@ Revive(d) ==
     ELSE d
 FileDocs(f) == [i \in DOMAIN f[2] |-> Revive(f[2][i])]
 
+\* paths under a directory that does not exist: an export there fails, and changes nothing
+UnwritablePaths == {"nodir/exp.json"}
+
 ---------------------------------------------------------------------------
 (* The dispatch: acceptable errors                                         *)
 NoColl(cat, c) == IF HasColl(cat, c) THEN {} ELSE {"ErrCollectionNotExist"}
@@ -205,7 +208,7 @@ Errs(cat, files, e) ==
       [] e.op = "IterateDocs" ->
             IF ~HasColl(cat, e.c) THEN {"ErrCollectionNotExist"}
             ELSE IF e.j > 0 /\ e.j <= CountOf(cat[e.c].docs, QueryOf(e)) THEN {"consumer"} ELSE {}
-      [] e.op = "Export" -> NoColl(cat, e.c)
+      [] e.op = "Export" -> NoColl(cat, e.c) \cup (IF e.path \in UnwritablePaths THEN {"other"} ELSE {})
       [] e.op = "Import" ->
             (IF HasColl(cat, e.c) THEN {"ErrCollectionExist"} ELSE {})
             \cup (IF e.path \notin DOMAIN files \/ files[e.path][1] # "docs" THEN {"other"}
